@@ -92,10 +92,40 @@ type writeIn struct {
 // second local stream): executed right before write number After (after the last write if After is
 // larger), with a next writer of its own.  SSRC 0 = the SSRC of the case's stream (the stream is
 // bound AGAIN); Unbind = UnbindLocalStream of the live stream with that SSRC first.
+//
+// Round 5: the stream configuration of the binding (StreamInfo of THIS BindLocalStream call) may differ
+// from the case's: Twcc 0 = the transport-cc ID of the case's stream (old replay files), -1 =
+// transport-cc not negotiated for this stream, else the negotiated ID; Nack 0 = as the case's
+// stream, 1 = nack negotiated, 2 = not negotiated.
 type bindIn struct {
 	After  int    `json:"after"`
 	SSRC   uint32 `json:"ssrc,omitempty"`
 	Unbind bool   `json:"unbind,omitempty"`
+	Twcc   int    `json:"twcc,omitempty"`
+	Nack   int    `json:"bnack,omitempty"`
+}
+
+// the negotiated transport-cc ID / nack feedback of a binding
+func (bi bindIn) twccID(c cfgIn) int {
+	switch {
+	case bi.Twcc == 0:
+		return c.TwccID
+	case bi.Twcc < 0:
+		return 0
+	}
+
+	return bi.Twcc
+}
+
+func (bi bindIn) nack(c cfgIn) bool {
+	switch bi.Nack {
+	case 1:
+		return true
+	case 2:
+		return false
+	}
+
+	return c.Nack
 }
 
 type readIn struct {
@@ -881,10 +911,11 @@ type result struct {
 	crops    []robs
 	cwops    []wobs
 	closeNil bool
-	cerrTerm string  // the Close error as a tree (option err)
-	cerrLine []int64 // the lines of its message, as signed sentinel ids
-	bssrc    []int64 // info.SSRC of every local-stream binding, in the order they were made
-	unbound  []int64 // SSRCs of the local streams unbound between two bindings
+	cerrTerm string     // the Close error as a tree (option err)
+	cerrLine []int64    // the lines of its message, as signed sentinel ids
+	bssrc    []int64    // info.SSRC of every local-stream binding, in the order they were made
+	unbound  []int64    // SSRCs of the local streams unbound between two bindings
+	bcfg     [][2]int64 // (uint8 of the negotiated transport-cc ID, nack negotiated) of every binding
 	is       [][2]int64
 	ctrs     [][3]int64
 	tds      []tdob // one per call of the teardown history
@@ -1182,6 +1213,7 @@ func runCase(in caseIn) (res *result) { //nolint:cyclop,gocyclo,gocognit,maintid
 	}
 	bnds := []binding{{info: info, w: lw, live: true}}
 	res.bssrc = []int64{int64(c.SSRC)}
+	res.bcfg = [][2]int64{{int64(uint8(c.TwccID)), b2z(c.Nack)}} //nolint:gosec
 	snapTD := func(op int) {
 		snap := tdob{op: op}
 		for _, m := range b.mocks {
@@ -1213,6 +1245,18 @@ func runCase(in caseIn) (res *result) { //nolint:cyclop,gocyclo,gocognit,maintid
 		}
 		ni := *info
 		ni.SSRC = ssrc
+		// the StreamInfo of this binding: its own header-extension map and feedback list
+		ni.RTPHeaderExtensions, ni.RTCPFeedback = nil, nil
+		if id := bi.twccID(c); id != 0 {
+			ni.RTPHeaderExtensions = []interceptor.RTPHeaderExtension{{URI: "urn:other", ID: 3}, {URI: twccURI, ID: id}}
+		}
+		if bi.nack(c) {
+			ni.RTCPFeedback = append(ni.RTCPFeedback, interceptor.RTCPFeedback{Type: "nack"})
+		}
+		if c.Pli {
+			ni.RTCPFeedback = append(ni.RTCPFeedback, interceptor.RTCPFeedback{Type: "nack", Parameter: "pli"})
+		}
+		res.bcfg = append(res.bcfg, [2]int64{int64(uint8(bi.twccID(c))), b2z(bi.nack(c))}) //nolint:gosec
 		k := len(bnds)
 		w := chain.BindLocalStream(&ni, bindWriter{t: tr, id: k})
 		waitStarted()
@@ -1828,6 +1872,10 @@ func (r *result) toCase() cq.Case {
 		}
 		vias = append(vias, cq.T(cq.Z(int64(o.via)), cq.L(st)))
 	}
+	bcs := []string{}
+	for _, x := range r.bcfg {
+		bcs = append(bcs, cq.T(cq.Z(x[0]), cq.B(x[1] == 1)))
+	}
 	is := []string{}
 	for _, x := range r.is {
 		is = append(is, cq.T(cq.Z(x[0]), cq.B(x[1] == 1)))
@@ -1858,7 +1906,7 @@ func (r *result) toCase() cq.Case {
 		cq.T(cq.B(r.closeNil), cq.L(is), tri(r.ctrs)), tri(r.counts), cq.LZ(r.flags[:]),
 		cq.L(as), cq.L(is2), cq.L(tds),
 		cq.T(cq.L(scms), r.cerrTerm, cq.LZ(r.cerrLine)),
-		cq.T(cq.LZ(r.bssrc), cq.L(vias), cq.LZ(r.unbound)))
+		cq.T(cq.LZ(r.bssrc), cq.L(vias), cq.LZ(r.unbound)), cq.L(bcs))
 	triv := len(flatten(in.Members)) == 0 || len(in.Writes)+len(in.Reads)+len(in.CReads)+len(in.CWrites) == 0
 
 	return cq.Case{Coq: term, JSON: in, Buckets: r.buckets, Trivial: triv}
